@@ -374,14 +374,15 @@ def finish(
     os.makedirs(os.path.join(VERIF, "evidence"), exist_ok=True)
     json.dump(ev, open(os.path.join(VERIF, "evidence", prop + ".json"), "w"), indent=1, default=repr)
     shown = 0
+    cap = 10**9 if os.environ.get('VCHECK_ALL') else 60
     for l in lines:
         if l.startswith("VIOLATION") or l.startswith("  case"):
             shown += 1
-            if shown > 60:
+            if shown > cap:
                 continue
         print(l)
-    if shown > 60:
-        print("... %d more VIOLATION lines suppressed (see evidence counterexamples / replays)" % ((shown - 60) // 2))
+    if shown > cap:
+        print("... %d more VIOLATION lines suppressed (see evidence counterexamples / replays)" % ((shown - cap) // 2))
     print(
         "%s %s: cases=%d paths=%d decisions=%d queries=%d solver_s=%.1f obligations=%d discharged=%d validated=%d "
         "violations=%d known=%d incomplete=%d errors=%d wall=%.1fs"
